@@ -35,7 +35,9 @@ def EXHAUSTIVE(tier):
     return True
 
 
+DEEP = b"[" * 3000 + b"]" * 3000        # valid JSON nested deeper than the interpreter's recursion limit
 TARGETED_REQ = [
+    b"POST /p HTTP/1.1\r\nHost: h\r\nContent-Type: application/json\r\nContent-Length: %d\r\n\r\n" % len(DEEP) + DEEP,
     b"GET / HTTP/1.1\r\nHost:h\r\n\r\n", b"GET / HTTP/1.1\r\nNoColonHere\r\n\r\n", b"GET / HTTP/1.1\r\n: empty\r\n\r\n",
     b"POST / HTTP/1.1\r\nTransfer-Encoding: chunked\r\n\r\nzz\r\nab\r\n0\r\n\r\n",
     b"POST / HTTP/1.1\r\nTransfer-Encoding: chunked\r\n\r\n-1\r\nab\r\n0\r\n\r\n",
@@ -53,6 +55,7 @@ TARGETED_REQ = [
     b"POST / HTTP/1.1\r\nContent-Length: 2\r\nContent-Type: text/plain; charset=\r\n\r\n\xff\xff",
 ]
 TARGETED_RSP = [
+    b"HTTP/1.1 200 OK\r\nContent-Type: application/json\r\nContent-Length: %d\r\n\r\n" % len(DEEP) + DEEP,
     b"HTTP/1.1 200 OK\r\nNoColon\r\n\r\n", b"HTTP/1.1 abc OK\r\n\r\n", b"HTTP/1.1 99 Low\r\n\r\n", b"HTTP/1.1\r\n\r\n", b"ICY 200 OK\r\n\r\n",
     b"HTTP/1.1 100 Continue\r\n\r\nHTTP/1.1 200 OK\r\nContent-Length: 0\r\n\r\n",
     b"HTTP/1.1 200 OK\r\nTransfer-Encoding: chunked\r\n\r\nzz\r\n", b"HTTP/1.1 200 OK\r\nTransfer-Encoding: chunked\r\n\r\n2\r\nabXX\r\n",
